@@ -249,6 +249,8 @@ class WindowedBinaryNormalizedEntropy(
         Args:
             metrics (Iterable[Metric]): metric instances whose states are to be merged.
         """
+        # `metrics` may be a one-shot iterable; it is walked more than once below
+        metrics = list(metrics)
 
         merge_max_num_updates = self.max_num_updates
         for metric in metrics:
